@@ -92,7 +92,7 @@ def observe(cfg, xs):
     """run the real code on one prefix; xs = list of Fractions (exact dyadics)"""
     n = len(xs)
     x = np.array([float(v) for v in xs], dtype=float)
-    obs = {"p": None, "hist": None, "eta": None, "lam": None, "exc": None, "mutated": False, "stateful": False, "int_differs": False, "u_late_differs": False}
+    obs = {"p": None, "hist": None, "eta": None, "lam": None, "exc": None, "mutated": False, "stateful": False, "int_differs": False, "u_late_differs": False, "ro_late_differs": False}
     with warnings.catch_warnings():
         warnings.simplefilter("ignore")
         try:
@@ -118,6 +118,14 @@ def observe(cfg, xs):
                 p4, h4 = nm0.test(x.copy())
                 h4 = [float(v) for v in np.asarray(h4, dtype=float).ravel()]
                 obs["u_late_differs"] = not (feq(float(p4), obs["p"]) and len(h4) == len(obs["hist"]) and all(feq(a, b) for a, b in zip(h4, obs["hist"])))
+            # the declaration "the sample is / is not in random order" may be changed on an existing test object (an audit
+            # learns that the order of a batch was not random): the answer is that of an object built with the new value
+            if "ro" in cfg and not (cfg["test"] == "wald_sprt" and cfg["N"] is not None):
+                nmr = make(dict(cfg, ro=not cfg["ro"]))
+                nmr.random_order = cfg["ro"]
+                p6, h6 = nmr.test(x.copy())
+                h6 = [float(v) for v in np.asarray(h6, dtype=float).ravel()]
+                obs["ro_late_differs"] = not (feq(float(p6), obs["p"]) and len(h6) == len(obs["hist"]) and all(feq(a, b) for a, b in zip(h6, obs["hist"])))
             # u itself may be given as a Python int (u=1, u=2): same answer required (checked on the long samples, where an
             # integer power or product would have room to overflow)
             if cfg.get("paths") and fr(cfg["u"]).denominator == 1:
